@@ -3,7 +3,7 @@
 
 The theorems are about the defs that tools/goslp (slpffttop.go) regenerates from the fft packages' Go sources on every run
 (Gen/FFT/<Pkg>Top.lean): `(*Domain).FFT` and `(*Domain).FFTInverse` specialised per size (2..32), decimation, coset option and
-withPrecompute, with nbTasks = 1. Per generated target the script instantiates
+withPrecompute, with nbTasks = 1, and `bitReverseNaive` / `bitReverseCobra` on 2..32 elements (C10top_<pkg>_bitReverse*: = the model's bitReverse). Per generated target the script instantiates
   <target>_go              generated def = the Go-shaped list program goFFT / goFFTInverse of Proofs/C10Top.lean   (kernel, `kernel_rfl`)
   C10top_<pkg>_<target>    = `FFT` / `FFTInverse` of Model/FFT.lean on the domain with these fields, on every input, when the input
                            tables satisfy their defining equations (cosetTable[i] = g^i, twiddles as buildTwiddles builds them)
@@ -30,7 +30,9 @@ def pkg_file(pkg, godir, kers):
     sig = {}
     for m in re.finditer(r"^def (\S+) \{F : Type\}.*$", gen, re.M):
         sig[m.group(1)] = (binders(m.group(0)), m.group(0))
-    targets = [t for t in json.load(open(os.path.join(GEN, "summary.json")))[pkg]["translated"] if t.startswith("Domain.")]
+    alltargets = json.load(open(os.path.join(GEN, "summary.json")))[pkg]["translated"]
+    targets = [t for t in alltargets if t.startswith("Domain.")]
+    brtargets = [t for t in alltargets if t.startswith("bitReverse")]
     KERS = "[" + ", ".join(map(str, kers)) + "]"
     body, thms = [], []
     info = {}
@@ -193,6 +195,21 @@ theorem {r_} {fdecl} {idecl}{(' ' + ' '.join(need)) if need else ''}
   exact {lem} {KERS} {dom} {'true' if coset else 'false'} a.toList hgen hg hc rfl
 """)
                     thms.append(r_)
+    # BitReverse on 2..32 elements
+    for t in brtargets:
+        mt = re.fullmatch(r"bitReverse(Naive|Cobra)_n(\d+)", t)
+        assert mt and sig[t][0] == ["v"], t
+        n = int(mt.group(2))
+        m = log2(n)
+        c_ = f"C10top_{pkg}_{t}"
+        how = ("the swap loop `v[i], v[iRev] = v[iRev], v[i]` for `iRev > i`, unrolled" if mt.group(1) == "Naive"
+               else "the dispatcher: `switch len(v)` decided at translation time, default branch, `bitReverseNaive`")
+        body.append(f"""/-- C10top ({pkg}): `bitReverse{mt.group(1)}` on {n} elements ({how}) is the index map `i ↦ bitrev {m} i` of the model
+    (`BitReverse` calls it for every length below 2^21: text compared by the translator), every entry checked by the kernel -/
+theorem {c_} {{α : Type}} [Zero α] (v : Arr{n} α) :
+    ({t} v).toList = bitReverse {m} v.toList := by kernel_rfl
+""")
+        thms.append(c_)
     ex = """/-- a concrete instance (non-vacuity): `ZMod 5`, 4 points, `w = 2` (`2² = -1`), shift `g = 2`: the tables of the domain exist, the
     hypotheses hold, and the statements are not trivial -/
 example : ([1, 2, 4, 3] : List (ZMod 5)) = powers 2 4 ∧ ([[1, 2, 4], [1, 4]] : List (List (ZMod 5))) = buildTwiddles 2 2 ∧
